@@ -104,7 +104,13 @@ def documented_errors():
 def decompile(routine_infos, routine_ops, named_coroutines):
     from explorerscript.ssb_converting.ssb_decompiler import ExplorerScriptSsbDecompiler
 
-    d = ExplorerScriptSsbDecompiler(routine_infos, routine_ops, named_coroutines, T.PERF_VAR, dungeon_mode_constants())
+    dmc = dungeon_mode_constants()
+    # another application object with OTHER names is built after ours (two projects open in one process): settings
+    # objects are independent of each other
+    from explorerscript.ssb_converting.ssb_data_types import DungeonModeConstants
+
+    DungeonModeConstants("OTHER_CLOSED", "OTHER_OPEN", "OTHER_REQUEST", "OTHER_OPEN_AND_REQUEST")
+    d = ExplorerScriptSsbDecompiler(routine_infos, routine_ops, named_coroutines, T.PERF_VAR, dmc)
     with cut_stack():
         return d.convert()
 
